@@ -1091,10 +1091,7 @@ impl Family for StakeFamily {
     }
     fn props(&self) -> Vec<PropSpec> {
         vec![PropSpec {
-            id: "C10",
-            quick_cases: 4000,
-            thorough_cases: 4500,
-            floor: 600,
+            id: "C10", quick_cases: 10000, thorough_cases: 4500, floor: 1500,
             rule: "case = configuration (native or cw20-base stake token, tokens_per_weight in {1, small, 1000, 2^64, edge, 0 rarely}, min_bond absolute or k*tpw+-1, Height/Time unbonding period incl. 0 and near-u64::MAX, 3 users funded up to 2^127) + up to 40 (thorough 100) ops: Bond / Unbond with absolute and state-relative amounts (balance, stake, tpw multiples, min_bond +-1, 2^64*tpw +-1), Claim, Advance, AdvanceToRelease+-1, five kinds of foreign-token attempts, rare donation; executed on a cw-multi-test App with real bank / cw20 token movements; after every call Staked, Member, Claims, ListMembers, TotalWeight and real balances of all parties are compared with a ledger. Non-trivial: (a user makes a partial unbond, then attempts Claim while that claim is immature, then is paid by a later Claim) or (a member whose true quotient stake/tpw is >= 2^63) or (a foreign-token attempt rejected after at least one successful Bond); distinct = distinct canonical JSON of the case.",
             assumptions: ASSUME,
         }]
